@@ -11,6 +11,7 @@
 #include "mpt_c.hpp"
 
 #include <cctype>
+#include <functional>
 
 using namespace vp;
 using namespace mpt;
@@ -347,15 +348,15 @@ static void same_rest(Case &k, const message &mf, const message &mo, size_t pos,
 }
 static size_t read_both(Case &k, message &mf, message &mo, size_t len, bool with_dest, size_t pos, bool have_ref) {
   Ctx &c = k.c;
-  uint8_t *df = 0, *dо = 0;
+  uint8_t *df = 0, *d1 = 0;
   if (with_dest) {
-    df = (uint8_t *)malloc(len); dо = (uint8_t *)malloc(len);
-    memset(df, 0xAA, len); memset(dо, 0xAA, len);
+    df = (uint8_t *)malloc(len); d1 = (uint8_t *)malloc(len);
+    memset(df, 0xAA, len); memset(d1, 0xAA, len);
   }
   size_t before = flatten(mf).size();
-  size_t rf = mpt_message_read(&mf, len, df), ro = mpt_message_read(&mo, len, dо);
-  Bytes gf((const char *)df, with_dest ? len : 0), go((const char *)dо, with_dest ? len : 0);
-  free(df); free(dо);
+  size_t rf = mpt_message_read(&mf, len, df), ro = mpt_message_read(&mo, len, d1);
+  Bytes gf((const char *)df, with_dest ? len : 0), go((const char *)d1, with_dest ? len : 0);
+  free(df); free(d1);
   c.logf("read(%zu%s) at %zu: fragmented %zu, contiguous %zu", len, with_dest ? "" : ", no target", pos, rf, ro);
   CK(c, rf == ro, "read-differs", "mpt_message_read(%zu) at %zu: %zu from the fragments, %zu from the contiguous string", len, pos, rf, ro);
   CK(c, gf == go, "read-differs", "mpt_message_read(%zu) at %zu: data %s from the fragments, %s from the contiguous string", len, pos, show(gf).c_str(), show(go).c_str());
@@ -564,7 +565,7 @@ static void one_op(Case &k, int op) {
     case OpMemcpy: {
       size_t S = k.text.size(), D;
       switch (c.weighted({3, 2, 1})) {
-        case 0: D = S + c.range(0, 2) >= 1 ? S + c.range(0, 2) - 1 : 0; break;
+        case 0: { size_t d = c.range(0, 2); D = S + d >= 1 ? S + d - 1 : 0; break; }
         case 1: D = c.range(0, S + 10); break;
         default: D = 0; break;
       }
@@ -632,13 +633,14 @@ static void enum_make(uint64_t idx, int, std::vector<uint8_t> &out) {
   out.push_back((uint8_t)n);
   for (uint64_t i = 0; i < n; i++) { out.push_back(si % 4); si /= 4; }
   // composition: 1 part | 2 parts cut a | 3 parts cuts a <= b
-  if (ci == 0) { out.push_back(1); return; }
+  // (draws are range(lo,hi): the byte holds value - lo)
+  if (ci == 0) { out.push_back(0); return; }
   ci -= 1;
-  if (ci < n + 1) { out.push_back(2); out.push_back((uint8_t)ci); return; }
+  if (ci < n + 1) { out.push_back(1); out.push_back((uint8_t)ci); return; }
   ci -= n + 1;
-  out.push_back(3);
+  out.push_back(2);
   for (uint64_t a = 0; a <= n; a++) {
-    if (ci < n + 1 - a) { out.push_back((uint8_t)a); out.push_back((uint8_t)(a + ci)); return; }
+    if (ci < n + 1 - a) { out.push_back((uint8_t)a); out.push_back((uint8_t)ci); return; }
     ci -= n + 1 - a;
   }
 }
